@@ -22,6 +22,10 @@ pub enum VSpec {
 pub struct Case {
     pub pool: Vec<VSpec>,
     pub triples: Vec<(usize, usize, usize)>,
+    /// pool entries (tables) that are built with a different growth history: extra entries are added after the real
+    /// ones and removed again, so the content and order are the same but the hash part is larger
+    #[serde(default)]
+    pub grown: Vec<(usize, usize)>,
 }
 
 pub struct LawsEngine {}
@@ -163,14 +167,54 @@ impl Engine for LawsEngine {
             }
             pool.push(c);
         }
+        // equal tables with different histories
+        let mut grown = Vec::new();
+        for _ in 0..4 {
+            let i = rng.below(n);
+            if let VSpec::Table(_) = &pool[i] {
+                grown.push((pool.len(), *rng.pick(&[6usize, 12, 30, 70])));
+                pool.push(pool[i].clone());
+            }
+        }
+        // neighbours of integers already in the pool (distinct integers are never equal, however large)
+        for _ in 0..4 {
+            let i = rng.below(n);
+            if let VSpec::Int(x) = &pool[i] {
+                let y = if rng.chance(1, 2) { x.wrapping_add(1) } else { x.wrapping_sub(1) };
+                pool.push(VSpec::Int(y));
+            }
+        }
+        if rng.chance(1, 3) {
+            let base = *rng.pick(&[1i64 << 53, -(1i64 << 53), i64::MAX - 1, i64::MIN, (1i64 << 60) + 2, 1i64 << 62]);
+            pool.push(VSpec::Int(base));
+            pool.push(VSpec::Int(base + 1));
+        }
         let m = pool.len();
         let triples = (0..(if tier == Tier::Quick { 400 } else { 2000 })).map(|_| (rng.below(m), rng.below(m), rng.below(m))).collect();
-        Case { pool, triples }
+        Case { pool, triples, grown }
     }
     fn run(&mut self, case: &Case, obs: &mut Obs) -> Verdict {
         let cfg = VmConfig::default();
         let mut vm = new_vm(&cfg, &[]);
-        let vals: Vec<Value> = case.pool.iter().map(|s| build(&mut vm, s)).collect();
+        let mut vals: Vec<Value> = case.pool.iter().map(|s| build(&mut vm, s)).collect();
+        for (i, extra) in case.grown.iter().copied() {
+            if let Some(Value::Object(o)) = vals.get(i).copied() {
+                if let Some(t) = unsafe { (*o.as_ptr()).as_table_mut() } {
+                    let before = t.len();
+                    for x in 0..extra {
+                        let k = vm.init_string(&format!("extra-{x}")).unwrap().into_inner();
+                        t.insert(Value::Object(k), Value::Integer(x as i64)).unwrap();
+                    }
+                    for _ in 0..extra {
+                        let _ = t.pop();
+                    }
+                    if t.len() == before {
+                        obs.inc("tables_with_longer_history");
+                    }
+                }
+            }
+        }
+        vals.truncate(case.pool.len());
         let n = vals.len();
         for i in 0..n {
             let (a, sa) = (vals[i], &case.pool[i]);
@@ -213,6 +257,16 @@ impl Engine for LawsEngine {
                 // numeric order where at least one side is a number
                 let num_a = matches!(sa, VSpec::Int(_) | VSpec::Real(_));
                 let num_b = matches!(sb, VSpec::Int(_) | VSpec::Real(_));
+                if let (VSpec::Int(x), VSpec::Int(y)) = (sa, sb) {
+                    obs.inc("integer_order_pairs");
+                    let got = a.partial_cmp(&b);
+                    if got != Some(x.cmp(y)) {
+                        return viol("integer-order", format!("{x} compared with {y}: got {got:?}"));
+                    }
+                    if (a < b) != (x < y) || (a <= b) != (x <= y) || (a > b) != (x > y) || (a >= b) != (x >= y) {
+                        return viol("integer-order", format!("the comparison operators on {x} and {y} disagree with the integers' order"));
+                    }
+                }
                 if (num_a || num_b) && exact_small(sa) && exact_small(sb) {
                     if let (Some(x), Some(y)) = (numeric(sa), numeric(sb)) {
                         if !x.is_nan() && !y.is_nan() {
@@ -277,6 +331,7 @@ impl Engine for LawsEngine {
                 let mut c = case.clone();
                 let mid = n / 2;
                 c.pool = if half == 0 { c.pool[..mid].to_vec() } else { c.pool[mid..].to_vec() };
+                c.grown = if half == 0 { c.grown.iter().filter(|(g, _)| *g < mid).cloned().collect() } else { c.grown.iter().filter(|(g, _)| *g >= mid).map(|(g, e)| (*g - mid, *e)).collect() };
                 let m = c.pool.len();
                 c.triples = c.triples.iter().filter(|(a, b, d)| *a < m && *b < m && *d < m).cloned().collect();
                 out.push(c);
@@ -284,6 +339,7 @@ impl Engine for LawsEngine {
             for i in (0..n).rev() {
                 let mut c = case.clone();
                 c.pool.remove(i);
+                c.grown = c.grown.iter().filter(|(g, _)| *g != i).map(|(g, e)| (if *g > i { *g - 1 } else { *g }, *e)).collect();
                 let m = c.pool.len();
                 c.triples = c.triples.iter().filter(|(a, b, d)| *a < m && *b < m && *d < m).cloned().collect();
                 out.push(c);
